@@ -183,6 +183,47 @@ def main(argv):
                 c.broken.append("correspondence names model vs ParseArgs: -p %s -n %d model=%s impl=%s" % (p, n, mo[:100], o[:100]))
         c.cov["traces_validated_against_impl"] += len(nlines)
 
+    # ------------------------------------------------------------ option handling: real ParseArgs vs the model
+    combos = []
+    for fields in ("1-", "1", "2-3", "1,3", "3,1", "0", "2-1", "x", "1-2,2-3", ""):
+        combos.append({"fields": fields, "prefix": "p", "number": 3, "outputs": [], "compress": "none"})
+    for prefix in (None, "p", ""):
+        for number in (None, 0, 1, 2, 10, 11):
+            for outputs in ([], ["a"], ["a", "b"]):
+                for compress in ("none", "gzip", "bzip2", "xz", "GZIP", ""):
+                    if rng.random() < (1.0 if compress in ("none", "gzip") else 0.34):
+                        combos.append({"fields": "1-", "prefix": prefix, "number": number, "outputs": outputs, "compress": compress})
+    alines, mlines = [], []
+    for o in combos:
+        argv_ = ["-f", o["fields"]] if o["fields"] != "" else ["-f", ""]
+        if o["prefix"] is not None:
+            argv_ += ["--prefix", o["prefix"]]
+        if o["number"] is not None:
+            argv_ += ["--number", str(o["number"])]
+        argv_ += ["-c", o["compress"]] + o["outputs"]
+        if "" in argv_:
+            continue                                     # the line protocol of the harness cannot carry empty arguments
+        alines.append("N " + " ".join(argv_))
+        mlines.append("A %s %s %s %s %s" % (o["fields"].encode().hex(), "-" if o["prefix"] is None else (o["prefix"].encode().hex() or "e"),
+                                            "-" if o["number"] is None else o["number"],
+                                            ",".join(x.encode().hex() for x in o["outputs"]) or "-", o["compress"].encode().hex()))
+        c.count(("args", tuple(argv_)), bucket="options/%s" % ("prefix-number" if not o["outputs"] else "explicit-outputs"))
+    rc, aout, aerr = run_lines(hx, alines)
+    if len(aout) != len(alines):
+        c.broken.append("hx_shard died on option cases: %s" % aerr[-300:])
+    elif drv:
+        rc, amo, _ = run_lines(drv, mlines)
+        for l, a, b in zip(alines, amo, aout):
+            if a != b:
+                c.broken.append("correspondence option handling model vs ParseArgs: %s model=%s impl=%s" % (l, a[:100], b[:100]))
+                break
+        c.cov["traces_validated_against_impl"] += len(alines)
+        # oracle: whatever is accepted has at least one output (the shard index is taken modulo that number)
+        for l, b in zip(alines, aout):
+            if b.startswith("OK") and b.split(" ")[1] in ("-", ""):
+                c.violation("accepted-arguments-without-output: %s accepted with no output file (division by zero on the first line)" % l,
+                            {"op": "args", "how": "shard " + l[2:]})
+
     # ------------------------------------------------------------ tool runs
     specs = ["1-", "1", "2", "1-2", "2-", "1,3"]
     delims = [b"\t", b" ", b","]
